@@ -126,7 +126,7 @@ PROPS = {
         "assumptions": [],
     },
     "C06": {
-        "modules": ["Cose.Props.C06"], "families": ["msg:C06", "prim:aead"], "spec_ops": ["wire.msgdup"],
+        "modules": ["Cose.Props.C06", "Cose.Props.C06Shape"], "families": ["msg:C06", "prim:aead"], "spec_ops": ["wire.msgdup"],
         "n_quick": 500, "n_thorough": 60000,
         "rule": "Encrypt0/Encrypt x 12 AEADs x unprotected {none, IV of length n-1,n,n+1,1,0, Partial IV of length 0..n+2, both, ill-typed} x key Base IV {absent, right length, wrong lengths, ill-typed}; "
                 "recording Encryptor exposes the nonce on Encrypt and Decrypt; random nonces must be published in header 5 with the algorithm's length; msg.produce2: the message object has been through one encryption with a library-chosen nonce before; round 12: a failed Decrypt has asked the AEAD once (SEVERAL-NONCES-TRIED); Partial IV under a Base IV shorter than the nonce at fixed slots; msg.noncehistory re-reads the last 1024 message objects when they leave the window (published IV still the sealed nonce, every 64th encoded late and decrypted)",
